@@ -5,6 +5,7 @@ CONSTANTS
   Periods <- TrPeriods
   MaxNow = 1000000
   EnvOps = {"stop", "kill", "drain", "fail", "busy", "abort"}
+  Stalls = {}
   VirtualClock = TRUE
   Instant = FALSE
   UnstartedKillsInterval = TRUE
